@@ -7,6 +7,7 @@ package main
 import (
 	"deps.dev/util/resolve"
 	"deps.dev/util/semver"
+	"strings"
 
 	"verifharness/sx"
 )
@@ -199,7 +200,31 @@ func init() {
 	register("setop", func(a sx.V) sx.V {
 		sys := sysOf(a.Nth(0))
 		ta, tb := a.Nth(1).Str(), a.Nth(2).Str()
-		parse1 := func(t string) (semver.Set, bool) {
+		// an operand is a requirement text, a set text ({...}, read by ParseSetConstraint) or a
+		// computation on two such operands: "@I X @@ Y" (X intersected with Y), "@U X @@ Y"
+		var parse1 func(t string) (semver.Set, bool)
+		parse1 = func(t string) (semver.Set, bool) {
+			if strings.HasPrefix(t, "@I ") || strings.HasPrefix(t, "@U ") {
+				parts := strings.SplitN(t[3:], " @@ ", 2)
+				if len(parts) != 2 {
+					return semver.Set{}, false
+				}
+				x, ok := parse1(parts[0])
+				if !ok {
+					return semver.Set{}, false
+				}
+				y, ok := parse1(parts[1])
+				if !ok {
+					return semver.Set{}, false
+				}
+				var err error
+				if t[1] == 'I' {
+					err = x.Intersect(y)
+				} else {
+					err = x.Union(y)
+				}
+				return x, err == nil
+			}
 			var c *semver.Constraint
 			var err error
 			if len(t) > 0 && t[0] == '{' {
